@@ -58,6 +58,12 @@ func c12Shapes() []mb.Msg {
 		{Enc: "usascii", Parts: []mb.Part{{Type: "text/plain", Content: []byte("seven bit text\r\nsecond line\r\n")}}},                                                 // 14 single 7bit
 		{Enc: "usascii", Parts: []mb.Part{{Type: "text/plain", Content: []byte("seven bit text\r\n")}, h}, Attach: []mb.File{f("a.bin")}},                              // 15 7bit inside multiparts
 		{Parts: []mb.Part{{Type: "text/plain", Content: c12Text, Enc: "usascii"}}, Embeds: []mb.File{f("e.png")}},                                                      // 16 7bit part via WithPartEncoding
+		// histories: the Msg object carried other content, was (rendered and) Reset() and is used again
+		{Parts: []mb.Part{p(""), h}, Embeds: []mb.File{f("e.png")}, Attach: []mb.File{f("a.bin")}, Recycle: 1}, // 17
+		{Parts: []mb.Part{p(""), h}, Embeds: []mb.File{f("e.png")}, Attach: []mb.File{f("a.bin")}, Recycle: 2}, // 18
+		{Parts: []mb.Part{p("")}, Attach: []mb.File{f("a.bin")}, Recycle: 2},                                   // 19
+		{Parts: []mb.Part{p("")}, Recycle: 2},                                                                  // 20
+		{Attach: []mb.File{f("one.bin"), f("two.bin")}, Recycle: 1},                                            // 21
 	}
 }
 
@@ -202,6 +208,9 @@ func c12ShapeClass(s mb.Msg) string {
 	if len(s.Attach) > 0 {
 		c = append(c, "attach")
 	}
+	if s.Recycle > 0 {
+		c = append(c, "recycled")
+	}
 	return strings.Join(c, "+")
 }
 
@@ -223,7 +232,7 @@ func init() {
 	vf.Register(&vf.Check{
 		ID: "C12", Title: "render failures are reported — never a panic, never silent success",
 		Run: func(r *vf.Run) {
-			r.SetRule("17 message shapes (single QP/base64/8bit/7bit, alternative, with description, related, mixed, all three levels, attachment-only ×1/×2, S/MIME ×2, mixed encodings, fixed boundary) × render {first, second} × a sink that starts failing at EVERY byte offset k of the output × {accepts the prefix then errors, rejects the whole write}; every producer × {fails before data, after half, after all data} × 8 error values (generic, io.EOF plain and wrapped, io.ErrUnexpectedEOF, context.Canceled, …); (thorough) producer failure × sink failure on an 8-byte grid; oracle: no panic, err != nil iff something failed, returned count = bytes the sink accepted; distinct by case tuple")
+			r.SetRule("22 message shapes (5 of them on a Msg object that carried other content before, was rendered and Reset(); single QP/base64/8bit/7bit, alternative, with description, related, mixed, all three levels, attachment-only ×1/×2, S/MIME ×2, mixed encodings, fixed boundary) × render {first, second} × a sink that starts failing at EVERY byte offset k of the output × {accepts the prefix then errors, rejects the whole write}; every producer × {fails before data, after half, after all data} × 8 error values (generic, io.EOF plain and wrapped, io.ErrUnexpectedEOF, context.Canceled, …); (thorough) producer failure × sink failure on an 8-byte grid; oracle: no panic, err != nil iff something failed, returned count = bytes the sink accepted; distinct by case tuple")
 			r.Assume("a sink returns n <= len(p) and a non-nil error when n < len(p)", "S/MIME output length varies per signature; offsets beyond the actual length are fault-free runs")
 			shapes := c12Shapes()
 			var cases []c12Case
@@ -234,8 +243,13 @@ func init() {
 					return
 				}
 				var b bytes.Buffer
-				if _, err := m.WriteTo(&b); err != nil {
-					r.HarnessError("C12 reference render of shape %d: %v", si, err)
+				var rerr error
+				if pan, pw := vf.Guard(func() { _, rerr = m.WriteTo(&b) }); pan {
+					r.Violation("panic/"+vf.PanicSite(pw), fmt.Sprintf("WriteTo panicked on a fault-free render (%s): %s", spec.Describe(), firstLine(pw)), c12Case{Shape: si, SinkAt: -1}, nil)
+					continue
+				}
+				if rerr != nil {
+					r.HarnessError("C12 reference render of shape %d: %v", si, rerr)
 					return
 				}
 				L := b.Len()
